@@ -72,6 +72,7 @@ type World struct {
 	Counters map[string]int
 	// OnIdle is called by the scheduler when nothing is parked and virtual time is about to pass
 	// (at most once per IdleEvery of virtual time): background dynamics such as replication progress
+	Chooser             func(pend []*Call) int
 	OnIdle              func()
 	IdleEvery           time.Duration
 	lastIdle            time.Duration
@@ -365,6 +366,12 @@ func (w *World) RunUntil(done <-chan struct{}) {
 	}
 }
 
+// Yield is a pure scheduling point of proc (a place where the driver lets the environment or
+// other processes move, e.g. between two API calls of a client script).
+func (w *World) Yield(proc, label string) {
+	w.Gate(&Call{Proc: proc, Kind: "yield", Target: "@", Op: label})
+}
+
 // Step runs fn as a handler of process proc (panics are recorded) and schedules until it returns.
 func (w *World) Step(proc string, fn func()) {
 	done := make(chan struct{})
@@ -426,6 +433,15 @@ func (w *World) decideOne() bool {
 	c := pend[0]
 	if w.Policy == 1 {
 		c = pend[len(pend)-1]
+	}
+	if w.Chooser != nil {
+		// full control for interleaving exploration: the driver picks the call to grant, or applies
+		// an environment event itself and returns -1 (the parked set is then re-evaluated)
+		i := w.Chooser(pend)
+		if i < 0 {
+			return true
+		}
+		c = pend[i]
 	}
 	idx := len(w.Trace)
 	dev := w.Plan[idx]
@@ -534,9 +550,12 @@ func (w *World) execute(c *Call, pt *Point, dev Deviation) {
 		w.SetCut(w.hostOf(c.Proc), "zk", true)
 		w.ZK.SyncLinks()
 	}
-	if c.Kind == "sql" {
+	switch c.Kind {
+	case "sql":
 		w.executeSQL(c, pt, dev)
-	} else {
+	case "yield":
+		c.reply <- Reply{}
+	default:
 		w.executeZK(c, pt, dev)
 	}
 	switch dev.Kind {
